@@ -641,7 +641,13 @@ def play_hand(cfg, pol, monitors, prop=None, max_ops=None):
             cap = max_ops or op_bound(state)
             steps = 0
             while True:
-                avail = available(state)
+                try:
+                    avail = available(state)
+                except Exception as exc:    # noqa: BLE001
+                    # one of the sixteen yes/no queries raised
+                    ctx.data['op_exc'] = ('<query>', [], exc)
+                    ctx.data['query_exc'] = exc
+                    break
                 for m in monitors:
                     m.on_decision(ctx, state, avail)
                 if ctx.violations or not avail:
@@ -704,7 +710,12 @@ def replay_script(cfg, script, monitors, prop=None, stop_at=None):
                     ctx.script.append([name, args])
                     state = fork_state(ctx, *args)
                     continue
-                avail = available(state)
+                try:
+                    avail = available(state)
+                except Exception as exc:    # noqa: BLE001
+                    ctx.data['op_exc'] = ('<query>', [], exc)
+                    ctx.data['query_exc'] = exc
+                    break
                 for m in monitors:
                     m.on_decision(ctx, state, avail)
                 if ctx.violations:
@@ -715,9 +726,14 @@ def replay_script(cfg, script, monitors, prop=None, stop_at=None):
                     ctx.data['op_exc'] = (name, args, exc)
                     break
             else:
-                avail = available(state)
-                for m in monitors:
-                    m.on_decision(ctx, state, avail)
+                try:
+                    avail = available(state)
+                    for m in monitors:
+                        m.on_decision(ctx, state, avail)
+                except Exception as exc:    # noqa: BLE001
+                    if 'query_exc' not in ctx.data:
+                        ctx.data['op_exc'] = ('<query>', [], exc)
+                        ctx.data['query_exc'] = exc
             for m in monitors:
                 m.on_end(ctx, state)
         finally:
